@@ -46,8 +46,17 @@ if __name__ == "__main__":
     modname, func = sys.argv[1:3]
     job = json.loads(os.environ["VF_JOB"])
     boot.paths()
+    cov = None
+    if os.environ.get("VF_COVERAGE"):
+        # optional: line coverage of the code under test by the workloads (tools/coverage_report.sh); not used by any verdict
+        import coverage
+        cov = coverage.Coverage(data_file=os.path.join(os.environ["VF_COVERAGE"], "cov.%d" % os.getpid()), include=[os.path.join(boot.REPO, "pysnark", "*")])
+        cov.start()
     mod = importlib.import_module(modname)
     res = getattr(mod, func)(job)
+    if cov is not None:
+        cov.stop()
+        cov.save()
     with open(os.environ["VF_OUT"], "w") as f:
         json.dump(res, f)
     sys.stdout.flush()
